@@ -131,6 +131,9 @@ class MutualInfoClimateNetwork(ClimateNetwork):
             print("Calculating mutual information matrix at zero lag from "
                   "anomaly values using cython...")
 
+        if n_bins < 1:
+            raise ValueError("n_bins must be a positive integer.")
+
         #  Normalize anomaly time series to zero mean and unit variance
         #  (a copy: the anomaly belongs to the shared data object)
         anomaly = anomaly.copy()
